@@ -97,7 +97,9 @@ mod verif_cmap_reader {
         kani::assume(m <= a && m <= b);
         let ix: usize = kani::any();
         kani::assume(ix <= 3);
-        let mut it = Cmap4Iter { subtable: t.clone(), cur_range: a..b, cur_start_code: kani::any(), cur_range_ix: ix };
+        let sc: u16 = kani::any();
+        kani::assume(sc as u32 <= a); // cur_start_code is the value cur_range.start had when the segment was entered
+        let mut it = Cmap4Iter { subtable: t.clone(), cur_range: a..b, cur_start_code: sc, cur_range_ix: ix };
         let r = it.next();
         assert!(it.cur_range_ix >= ix); // progress measure: (segment index, range start) never goes back
         assert!(it.cur_range.end >= b);
